@@ -11,6 +11,18 @@ pub type Set<K> = HashSet<K, PlanBuild, Ledger>;
 pub fn dump_set<K: KeyT>(m: &Set<K>) -> String {
     let d = m.verif_dump();
     let mut s = String::new();
+    if d.bucket_mask > 0xFFFF {
+        // too large to dump (only reachable when something asks for an absurd capacity)
+        let _ = write!(s, "m={} i={} g={} c=ff s=-", d.bucket_mask, d.items, d.growth_left);
+        match d.alloc {
+            Some((sz, al, off)) => {
+                let _ = write!(s, " a={},{},{}", sz, al, off);
+            }
+            None => s.push_str(" a=-"),
+        }
+        s.push_str(" sing=0 salt=0 BIG");
+        return s;
+    }
     let _ = write!(s, "m={} i={} g={} c={} s=", d.bucket_mask, d.items, d.growth_left, hex(&d.ctrl));
     let mut first = true;
     if d.bucket_mask != 0 {
